@@ -136,6 +136,11 @@ def make_cases(rng, tier):
         ("unbounded-for", block([sfor(assign(("var", "i"), "=", ("math", mint(0))), emath(matom(const(kbool(True)))), assign(("var", "i"), "+=", ("math", mint(1))), block([]))]), []),
         ("nested-unbounded-for", block([sfor(assign(("var", "i"), "=", ("math", mint(0))), mk_ecmp("<", emath(mvar("i")), emath(mint(3))), assign(("var", "i"), "+=", ("math", mint(1))),
                                              block([sfor(assign(("var", "j"), "=", ("math", mint(0))), emath(matom(const(kbool(True)))), assign(("var", "j"), "+=", ("math", mint(0))), block([]))]))]), []),
+        ("unbounded-for-continue", block([sfor(assign(("var", "i"), "=", ("math", mint(0))), emath(matom(const(kbool(True)))), assign(("var", "i"), "+=", ("math", mint(1))), block([scontinue()]))]), []),
+        ("unbounded-for-conditional-continue", block([sfor(assign(("var", "i"), "=", ("math", mint(0))), mk_ecmp(">=", emath(mvar("i")), emath(mint(0))), assign(("var", "i"), "+=", ("math", mint(1))),
+                                                          block([sif(mk_ecmp(">=", emath(mvar("i")), emath(mint(0))), block([scontinue()])), assign(("var", "n"), "=", ("math", mint(1)))]))]), []),
+        ("unbounded-for-nested-break", block([sfor(assign(("var", "i"), "=", ("math", mint(0))), emath(matom(const(kbool(True)))), assign(("var", "i"), "+=", ("math", mint(1))),
+                                                  block([sfor(assign(("var", "j"), "=", ("math", mint(0))), mk_ecmp("<", emath(mvar("j")), emath(mint(2))), assign(("var", "j"), "+=", ("math", mint(1))), block([sbreak()]))]))]), []),
         ("break-outside-loop", block([sbreak()]), []),
         ("continue-outside-loop", block([sif(emath(matom(const(kbool(True)))), block([scontinue()]))]), []),
         ("assign-to-injected-value", block([assign(("var", "c5"), "=", ("math", mint(1)))]), [inj_val("c5", tv_int("i64", 5))]),
